@@ -140,6 +140,28 @@ func (r *Rewriter) MarkStructCopied(name string) {
 	}
 }
 
+// MarkEmptyStructCopied marks the declaration `type <name> struct{}` as copied, but only when it
+// is exactly that: a struct the user has added fields to is left alone.
+func (r *Rewriter) MarkEmptyStructCopied(name string) {
+	for _, f := range r.pkg.Syntax {
+		for _, d := range f.Decls {
+			d, isGen := d.(*ast.GenDecl)
+			if !isGen || d.Tok != token.TYPE || len(d.Specs) != 1 {
+				continue
+			}
+			spec, isTypeSpec := d.Specs[0].(*ast.TypeSpec)
+			if !isTypeSpec || spec.Name.Name != name {
+				continue
+			}
+			st, isStruct := spec.Type.(*ast.StructType)
+			if !isStruct || st.Fields.NumFields() != 0 {
+				continue
+			}
+			r.copied[d] = true
+		}
+	}
+}
+
 func (r *Rewriter) ExistingImports(filename string) []Import {
 	filename, err := filepath.Abs(filename)
 	if err != nil {
